@@ -58,6 +58,16 @@ import (
 // member of EVERY per-address list (a sibling re-filed under an address only the promoted / torn-down tunnel was
 // certified for is a violation), and each application packet is judged on the wire (it must leave in a tunnel whose
 // certificate lists its destination).
+//
+// Impostor that shares an address with the genuine peer (scenarios with qcert=A / qcert=B): P is certified for {a,b}, Q for
+// exactly ONE of them, and Q sits at an underlay address me believes to be P's. Q is then the right host for a dial of
+// its own address and a WRONG responder for a dial of P's other address. What "the address the pending handshake was
+// for" means is taken from the handshake manager's own filing (the address the handshake was started for), never from the
+// pending entry's recorded address list. Start state of the maintenance variants: my tunnel to P, dialed by the address Q
+// is NOT certified for, has come and gone (closed on both ends), so that me still remembers P's certificate order; the
+// search then RE-DIALS (hs events are offered again whenever the sender holds neither a tunnel nor a pending handshake for
+// the address). Application packets stored while a handshake was pending are judged on the wire, like tx events, when
+// the reply that completes the handshake lets them leave.
 
 const (
 	c09A     = "10.0.0.2"
@@ -92,6 +102,11 @@ type c09Scn struct {
 	Pre   string
 	QD    int // search depth below the prefix in the quick tier (0 = the default of the maintenance scenarios) ...
 	TD    int // ... and in the thorough tier
+	// QCert: what the impostor Q at the peer's (believed) underlay address is certified for. "" = {c}, an address the genuine
+	// peer has nothing to do with; "A" = {a} / "B" = {b}: exactly ONE of the addresses of a several-address peer P {a,b} (P's
+	// certificate was re-issued / the address was given to another host), so Q is the right host for a dial of that address
+	// and a wrong responder for a dial of P's other address although its certificate shares an address with P's.
+	QCert string
 }
 
 func (s c09Scn) String() string {
@@ -104,6 +119,9 @@ func (s c09Scn) String() string {
 	}
 	if s.MeCert != "" {
 		x += " mecert=" + s.MeCert
+	}
+	if s.QCert != "" {
+		x += " qcert=" + s.QCert
 	}
 	if s.Maint != "" {
 		x += " maint=" + s.Maint
@@ -269,6 +287,8 @@ type c09World struct {
 	rhDone  map[string]bool
 	preDone bool
 	allTx   bool
+	// redialed: some start was executed again after its tunnel had been torn down (see canDial)
+	redialed bool
 }
 
 type c09Tx struct {
@@ -393,7 +413,11 @@ func c09Build(tb testing.TB, seed int64, sc c09Scn, stats *c09Stats) *c09World {
 	}
 	specs = append(specs, vnodeSpec{Name: "p", Networks: pNets, Udp: c09PUdp, Version: pSpecV, Overrides: pOv})
 	if sc.Remote != "P" {
-		specs = append(specs, vnodeSpec{Name: "q", Networks: c09C + "/24", Udp: c09QUdp, Version: sc.PV, Overrides: qOv})
+		qNets := map[string]string{"": c09C + "/24", "A": c09A + "/24", "B": c09B + "/24"}[sc.QCert]
+		if sc.QCert != "" && !hasB {
+			tb.Fatalf("c09: qcert=%s needs a peer certified for both a and b: %v", sc.QCert, sc)
+		}
+		specs = append(specs, vnodeSpec{Name: "q", Networks: qNets, Udp: c09QUdp, Version: sc.PV, Overrides: qOv})
 	}
 	if sc.Disc == "relay" {
 		specs = append(specs, vnodeSpec{Name: "r", Networks: "10.0.0.9/24", Udp: c09RUdp, Overrides: m{"relay": m{"am_relay": true}}})
@@ -1017,9 +1041,23 @@ func (w *c09World) deliverPool(i int, dup bool, where string) {
 		case 2:
 			dst.hm.RLock()
 			oldHH = dst.hm.indexes[idx]
+			var keyed []netip.Addr
+			for a, hh := range dst.hm.vpnIps {
+				if hh == oldHH {
+					keyed = append(keyed, a)
+				}
+			}
 			dst.hm.RUnlock()
 			if oldHH != nil {
+				// the address the pending handshake is FOR is the one it was started for, i.e. the one it is filed under in the
+				// handshake manager (me dialed it); the pending entry's own address list is the node's bookkeeping, not the
+				// reference (on the unchanged tree it is always exactly [that address])
 				intended = oldHH.hostinfo.vpnAddrs[0]
+				if len(keyed) > 0 && !slices.Contains(keyed, intended) {
+					slices.SortFunc(keyed, func(x, y netip.Addr) int { return x.Compare(y) })
+					intended = keyed[0]
+					w.stats.inc("pendingHandshakesWhoseFirstRecordedAddressIsNotTheDialedOne")
+				}
 				switch {
 				case c09Overlap(w.own[src.spec.Name], w.own[dst.spec.Name]):
 					kind = "selfResp"
@@ -1036,10 +1074,21 @@ func (w *c09World) deliverPool(i int, dup bool, where string) {
 		}
 	}
 	w.curTag = d.tag
+	if oldHH != nil && len(oldHH.packetStore) > 0 {
+		// the application packets stored for the dialed address leave when this reply completes the handshake: they are judged
+		// on the wire like a tx event (the tunnel they leave in must come from a certificate that lists the dialed address)
+		w.curTx = &c09Tx{from: dst, to: intended, name: "stored"}
+	}
 	dst.deliver(d.pkt.From, d.pkt.Data)
 	w.stats.deliveries++
 	w.pump(where)
 	w.curTag = ""
+	if w.curTx != nil {
+		if w.curTx.seen > 0 {
+			w.stats.inc("storedApplicationPacketsJudgedAtCompletion")
+		}
+		w.curTx = nil
+	}
 	after := w.mainIdx(dst)
 	dn := dst.spec.Name
 	// a completed handshake legitimately resets the blocked list shared by the handshakes for the same addresses
@@ -1082,6 +1131,17 @@ func (w *c09World) deliverPool(i int, dup bool, where string) {
 	case "wrong":
 		w.stats.wrong++
 		w.stats.wrongByDisc[w.sc.Disc]++
+		for _, ci := range w.certs {
+			// the answering host is not certified for the dialed address, but its certificate shares ANOTHER address with the
+			// certificate of the host that is (a several-address peer whose addresses were split over two hosts)
+			if ci.node != src.spec.Name && c09Contains(ci.addrs, intended) && c09Overlap(ci.addrs, w.own[src.spec.Name]) {
+				w.stats.inc("wrongRepliesFromHostSharingAnotherAddressWithTheGenuinePeer")
+				if w.redialed {
+					w.stats.inc("wrongRepliesFromHostSharingAnotherAddressWithTheGenuinePeerOnRedial")
+				}
+				break
+			}
+		}
 		if !slices.Equal(before, after) {
 			w.bad("C09: initiator installed a tunnel although a different host answered", "%s node=%s intended=%v responder=%s(%v) tunnels before=%d after=%d", where, dn, intended, src.spec.Name, w.own[src.spec.Name], len(before), len(after))
 			break
@@ -1120,27 +1180,23 @@ func (w *c09World) applyInner(e c09Ev, where string) bool {
 	w.steps++
 	switch e.K {
 	case "hs":
-		if w.started[e.N] {
+		if !w.canDial(e.N) {
 			return false
 		}
-		w.started[e.N] = true
-		var from *vnode
-		var to netip.Addr
-		switch e.N {
-		case "me:a":
-			from, to = w.me, netip.MustParseAddr(c09A)
-		case "me:b":
-			from, to = w.me, netip.MustParseAddr(c09B)
-		case "me:s":
-			from, to = w.me, netip.MustParseAddr(c09SAddr)
-		case "p:me":
-			from, to = w.byName["p"], w.me.vpnIP
-		case "s:me":
-			// S believes 10.0.0.5 lives at my underlay address; a responder never learns which address was intended
-			from, to = w.byName["s"], netip.MustParseAddr("10.0.0.5")
-		default:
-			w.tb.Fatalf("c09: unknown start %q", e.N)
+		from, to := w.hsEnds(e.N)
+		if w.started[e.N] {
+			w.stats.inc("redialsAfterTeardown")
+			w.redialed = true
+			if rl := from.lh.QueryCache([]netip.Addr{to}); rl != nil {
+				// (evidence) what the node remembers for the dialed address from the peer's last completed handshake
+				rl.RLock()
+				if len(rl.vpnAddrs) > 1 && rl.vpnAddrs[0] != to {
+					w.stats.inc("redialsOfNonFirstAddressOfRememberedCertificateList")
+				}
+				rl.RUnlock()
+			}
 		}
+		w.started[e.N] = true
 		from.tunSend(vUDPPacket(from.vpnIP, to, 4000, 4001, []byte("C09-"+e.N)))
 	case "dl", "dp":
 		if e.I >= len(w.pool) {
@@ -1222,6 +1278,46 @@ func (w *c09World) applyInner(e c09Ev, where string) bool {
 	w.pump(where + " / " + e.String())
 	w.checkAll(where + " / " + e.String())
 	return true
+}
+
+// hsEnds resolves the name of an hs event: who sends an application packet to which overlay address.
+func (w *c09World) hsEnds(name string) (from *vnode, to netip.Addr) {
+	switch name {
+	case "me:a":
+		return w.me, netip.MustParseAddr(c09A)
+	case "me:b":
+		return w.me, netip.MustParseAddr(c09B)
+	case "me:s":
+		return w.me, netip.MustParseAddr(c09SAddr)
+	case "p:me":
+		return w.byName["p"], w.me.vpnIP
+	case "s:me":
+		// S believes 10.0.0.5 lives at my underlay address; a responder never learns which address was intended
+		return w.byName["s"], netip.MustParseAddr("10.0.0.5")
+	}
+	w.tb.Fatalf("c09: unknown start %q", name)
+	return nil, netip.Addr{}
+}
+
+// canDial: every start is offered once; where tunnels can go away again (maintenance alphabet: cl, cm) the same
+// application packet is offered AGAIN (a re-dial) whenever the sender holds neither a tunnel nor a pending handshake
+// for the address: the handshake then starts from whatever the node still remembers of the peer (lighthouse cache /
+// static entries / the RemoteList of the torn-down tunnel). State-based, so it needs no counter in the canonical key.
+func (w *c09World) canDial(name string) bool {
+	if !w.started[name] {
+		return true
+	}
+	if w.sc.Maint == "" {
+		return false
+	}
+	from, to := w.hsEnds(name)
+	if from == nil || c09HasTunnel(from, to) {
+		return false
+	}
+	from.hm.RLock()
+	_, pending := from.hm.vpnIps[to]
+	from.hm.RUnlock()
+	return !pending
 }
 
 // closure: loss-free FIFO delivery with timer ticks on every node until nothing is pending (bounded).
@@ -1356,6 +1452,14 @@ func c09Wheel[T any](tw *TimerWheel[T]) string {
 // ---- driver ---------------------------------------------------------------------------------------------------------
 
 const (
+	// me dials P {a,b} by its SECOND address b (the first message to Q is lost), the tunnel completes on both ends and is
+	// then closed on both ends: what me remembers of P (the RemoteList filed under b, carrying P's certificate order [a,b])
+	// survives, and Q - certified for a only - still sits at one of the underlay addresses me believes to be b's
+	// (static_host_map: the first message leaves at once; lighthouse-learned: at the second timer tick; to P, then to Q)
+	c09PreDialBClosed   = "hs:me:b dr#1 dl#0 dl#0 cl:me#0"
+	c09PreDialAClosed   = "hs:me:a dr#1 dl#0 dl#0 cl:me#0"
+	c09PreDialBClosedLh = "hs:me:b tk:me tk:me dr#1 dl#0 dl#0 cl:me#0"
+	c09PreDialAClosedLh = "hs:me:a tk:me tk:me dr#1 dl#0 dl#0 cl:me#0"
 	// me -> a completes (both ends), P's handshake to me has left P and is in flight
 	c09PreCrossing = "hs:me:a hs:p:me dl#0 dl#0 tk:p tk:p"
 	// ... and then completes too: two tunnels on both sides, the later one (P's) primary
@@ -1384,6 +1488,9 @@ func c09Scenarios(thorough bool) []c09Scn {
 		{PCert: "A+AB", Disc: "static", Remote: "P", MeV: v2, PV: v1, Maint: "m", Pre: c09PreCrossing, TD: 5},
 		// ... and: both tunnels complete on both sides (P's v1 tunnel primary for a, my v2 tunnel still primary for b)
 		{PCert: "A+AB", Disc: "static", Remote: "P", MeV: v2, PV: v1, Maint: "m", Pre: c09PreBoth, QD: 3, TD: 5},
+		// the impostor is certified for ONE of the several-address peer's addresses (a; P is {a,b}): start state = my tunnel to
+		// P, dialed by b, has come and gone; then the search with re-dials
+		{PCert: "AB", Disc: "static", Remote: "QP", QCert: "A", MeV: v2, PV: v2, Maint: "m", Pre: c09PreDialBClosed, QD: 3, TD: 5},
 	}
 	if !thorough {
 		return quick
@@ -1442,13 +1549,21 @@ func c09Scenarios(thorough bool) []c09Scn {
 	add(c09Scn{PCert: "A+AB", Disc: "static", Remote: "P", MeV: v1, PV: v1, MeCert: "dual", Maint: "m", Pre: c09PreBoth})
 	add(c09Scn{PCert: "A+AB", Disc: "static", Remote: "P", MeV: v2, PV: v2, Maint: "m", Pre: c09PreBoth})
 	add(c09Scn{PCert: "AB", Disc: "static", Remote: "P", MeV: v2, PV: v2, Maint: "m", Pre: c09PreBoth})
+	// impostor certified for one address of the several-address peer: other discovery path / certificate version / the
+	// impostor holds P's SECOND address and the tunnel that came and went was dialed by the first / from scratch
+	add(c09Scn{PCert: "AB", Disc: "lh", Remote: "QP", QCert: "A", MeV: v2, PV: v2, Maint: "m", Pre: c09PreDialBClosedLh, TD: 6})
+	add(c09Scn{PCert: "AB", Disc: "static", Remote: "QP", QCert: "A", MeV: v2, PV: v1, Maint: "m", Pre: c09PreDialBClosed})
+	add(c09Scn{PCert: "AB", Disc: "lh", Remote: "QP", QCert: "B", MeV: v2, PV: v2, Maint: "m", Pre: c09PreDialAClosedLh, TD: 6})
+	add(c09Scn{PCert: "AB", Disc: "static", Remote: "QP", QCert: "B", MeV: v2, PV: v2, Maint: "m", Pre: c09PreDialAClosed})
+	add(c09Scn{PCert: "AB", Disc: "lh", Remote: "QP", QCert: "A", MeV: v2, PV: v2})
+	add(c09Scn{PCert: "AB", Disc: "static", Remote: "QP", QCert: "B", MeV: v2, PV: v2})
 	return out
 }
 
 func (w *c09World) menu(nDl, nDp, nDr int, rh bool) []c09Ev {
 	var menu []c09Ev
 	for _, s := range w.starts {
-		if !w.started[s] {
+		if w.canDial(s) {
 			menu = append(menu, c09Ev{K: "hs", N: s})
 		}
 	}
@@ -1751,7 +1866,7 @@ func TestVerifC09(t *testing.T) {
 		x = map[string]int64{}
 	}
 	c.Set("maintenance_counters", x)
-	c.Set("maintenance_explanation", "scenarios with maint=m start from a scripted prefix (two tunnels to a peer whose v1 and v2 certificates list different address sets) and add the events tx (application packet over an existing tunnel), cm (connection-manager tick: test packets, swapPrimary, dead-tunnel deletion, version re-handshake), pm (HostMap.MakePrimary of a non-primary tunnel), cl (close tunnel, the peer's end follows), rh (re-handshake, thorough only); counters name what the event of that kind did to the per-address tunnel lists (kind after the colon)")
+	c.Set("maintenance_explanation", "scenarios with maint=m start from a scripted prefix (two tunnels to a peer whose v1 and v2 certificates list different address sets) and add the events tx (application packet over an existing tunnel), cm (connection-manager tick: test packets, swapPrimary, dead-tunnel deletion, version re-handshake), pm (HostMap.MakePrimary of a non-primary tunnel), cl (close tunnel, the peer's end follows), rh (re-handshake, thorough only), and offer every hs (application packet without a tunnel) again once its tunnel and pending handshake are gone (re-dial); scenarios with qcert certify the impostor for one address of the several-address peer; counters name what the event of that kind did to the per-address tunnel lists (kind after the colon)")
 	c.Set("explanation", "states = distinct canonical network states (structural: peers named by certificate, handshakes by creation order, no index values or key bytes); transitions = histories replayed on real nodes; every delivered datagram is followed by the hostmap invariant on every node; each new state is additionally run to quiescence with the same checks")
 	if nviol == 0 && (workers > 0 || !c.OutOfTime()) {
 		c.Require(stats.wrong > 0 && stats.wrongByDisc["static"] > 0 && stats.wrongByDisc["lh"] > 0, "wrong responder not reached on both direct discovery paths: %v", stats.wrongByDisc)
@@ -1774,6 +1889,10 @@ func TestVerifC09(t *testing.T) {
 		c.Require(x["teardowns:cl"] > 0 && x["teardowns:cm"] > 0, "teardown by close and by the connection manager's dead-tunnel check not both reached: %v", x)
 		c.Require(x["teardownsLeavingSiblings:cl"] > 0 && x["teardownsOfPrimaryWithSuccessor:cl"] > 0 && x["teardownsVacatingOneAddressOnly:cl"] > 0, "teardown classes (sibling left / primary with successor / one address vacated while another keeps a tunnel) not all reached: %v", x)
 		c.Require(x["dataDatagramsJudged"] > 0 && x["connectionManagerTicks"] > 0, "application packets / connection-manager ticks not exercised: %v", x)
+		// re-dials after teardown; impostor certified for one of the addresses of the several-address peer
+		c.Require(x["redialsAfterTeardown"] > 0 && x["redialsOfNonFirstAddressOfRememberedCertificateList"] > 0, "no re-dial of a torn-down tunnel's address / of an address that is not the first of the certificate list the node remembers: %v", x)
+		c.Require(x["wrongRepliesFromHostSharingAnotherAddressWithTheGenuinePeerOnRedial"] > 0, "no re-dial was answered by a host that shares another certificate address with the genuine peer: %v", x)
+		c.Require(x["storedApplicationPacketsJudgedAtCompletion"] > 0, "no stored application packet was judged on the wire when its handshake completed: %v", x)
 		if c.Thorough() {
 			c.Require(x["rehandshakesStartedDirectly"] > 0, "no re-handshake event: %v", x)
 		}
